@@ -54,16 +54,18 @@ func (k msgServer) Store(goCtx context.Context, msg *types.MsgStore) (*types.Msg
 		return nil, sdkerrors.Wrapf(types.ErrInvalidCid, "invalid cid: %s", proposal.Cid)
 	}
 
-	if !strings.Contains(proposal.CommitId, proposal.DataId) {
-		// validate the permission for all update operations
-		meta, isFound := k.Keeper.model.GetMetadata(ctx, proposal.DataId)
-		if !isFound {
+	// validate the permission for all update operations: whenever the model exists,
+	// whatever the commit expression looks like (the first update of a model and any
+	// crafted expression contain the data id)
+	existingMeta, isFound := k.Keeper.model.GetMetadata(ctx, proposal.DataId)
+	if !isFound {
+		if !strings.Contains(proposal.CommitId, proposal.DataId) {
 			return nil, status.Errorf(codes.NotFound, "metadata :%s not found", proposal.DataId)
 		}
-
-		isValid := meta.Owner == sigDid
+	} else {
+		isValid := existingMeta.Owner == sigDid
 		if !isValid {
-			for _, readwriteDid := range meta.ReadwriteDids {
+			for _, readwriteDid := range existingMeta.ReadwriteDids {
 				if readwriteDid == sigDid {
 					isValid = true
 					break
